@@ -135,4 +135,5 @@ def spec(tier):
             "short inputs is exhaustive",
         ],
     }
+    opts["thorough_rounds"] = 2   # this job list alone takes tens of minutes in the thorough tier
     return jobs, floors, rule, opts
